@@ -346,10 +346,10 @@ impl PublishBuilder {
             self.packet,
             Some(payload),
         );
+        // releases the packet if this future is dropped after PUBREC has been received
+        let received = PublishReceived { packet_id: Some(idx), shared: self.shared };
         async move {
-            rx?.await
-                .map(move |_| PublishReceived { packet_id: Some(idx), shared: self.shared })
-                .map_err(|_| SendPacketError::Disconnected)
+            rx?.await.map(move |_| received).map_err(|_| SendPacketError::Disconnected)
         }
     }
 
